@@ -98,7 +98,11 @@ func main() {
 			os.Stdout = devnull
 		}
 		t0 := time.Now()
-		got := sup.ReplayOne(chk, envOr("VERIF_TIER", "quick"), &v)
+		tier := v.Tier
+		if tier == "" {
+			tier = envOr("VERIF_TIER", "quick")
+		}
+		got := sup.ReplayOne(chk, tier, &v)
 		same := false
 		for _, g := range got {
 			if g.Sig == v.Sig {
